@@ -191,7 +191,9 @@ pub fn write_fault_sweep(ctx: &Ctx, f: &dyn Fmt, rf: &Reference) -> R {
         }
         drop(st);
         // composite: the file as left behind by the crashed writer is handed to the reader
-        if !w.api_ok && variant & 1 == 1 && variant < 4 {
+        // (not for CSV: a file cut inside a line is a valid file with a shorter last line - C18 excludes it, and a
+        // writer that hands its 8 KiB buffer to the sink in mid-line leaves exactly that behind)
+        if !w.api_ok && variant & 1 == 1 && variant < 4 && f.trunc() != Trunc::NotChecked {
             let left = Arc::new(f.normalise(ctx, sink.data()));
             if left.len() < rf.bytes.len() {
                 let r = f.read(ctx, left.clone(), Plan::none());
